@@ -52,11 +52,11 @@ func (C03) Runs(tier string) int {
 func (C03) Meta() core.Meta {
 	return core.Meta{
 		Level: "fault_enumeration",
-		Rule: "a case = (file with 1..5 stanzas, one header edit, one identity able to open the original — alone, or listed before or after an identity that matches nothing —, delivery schedule). Sweep runs enumerate every single-bit flip of the header bytes of a small file; sampled runs apply one byte-level edit (insert/delete/substitute incl. CR, space, '='), one line-ending/separator translation (CR before a line end, CRLF everywhere, trailing space, blank line, joined lines, tab or double space for a separator; sweep runs apply these to every line), one write-level fault on the recorded Header.Marshal write list (drop/duplicate/swap a write or a run of writes: lost, replayed, reordered flushes) or one structural edit by the reference writer with the MAC left stale or replaced (type/argument/body substitution, grease insertion at every position, stanza deletion/duplication/permutation, MAC random or under another file key). Non-trivial = the image differs from the original; distinct = distinct (file skeleton, edit, identity, delivery).",
+		Rule: "a case = (file with 1..5 stanzas, one header edit, one identity able to open the original — alone, or listed before or after an identity that matches nothing —, delivery schedule). Sweep runs enumerate every single-bit flip of the header bytes of a small file; sampled runs apply one byte-level edit (insert/delete/substitute incl. CR, space, '='), one line-ending/separator translation (CR before a line end, CRLF everywhere, trailing space, blank line, joined lines, tab or double space for a separator; short strings such as an extra token, padding characters, a second footer prefix or an extra stanza line inserted at the end or start of a line; sweep runs apply these to every line), one write-level fault on the recorded Header.Marshal write list (drop/duplicate/swap a write or a run of writes: lost, replayed, reordered flushes) or one structural edit by the reference writer with the MAC left stale or replaced (type/argument/body substitution, grease insertion at every position, stanza deletion/duplication/permutation, MAC random or under another file key). Non-trivial = the image differs from the original; distinct = distinct (file skeleton, edit, identity, delivery).",
 		Assumptions: []string{"the editor does not hold the file key (a recipient can always re-MAC; that is outside the property)", "HMAC-SHA-256/HKDF are the trusted base"},
 		Real:        []string{"filippo.io/age Decrypt", "internal/format Parse", "X25519/scrypt/ssh identities", "headerMAC"},
 		Stub:        []string{"ciphertext source", "stored header image (edited copy of what SimDisk recorded)", "crypto/rand.Reader (tape)", "byzantine editor (reference writer without the key)"},
-		FaultKinds:  []string{"fault.flip", "fault.insert", "fault.delete", "fault.subst", "fault.wdrop", "fault.wdup", "fault.wswap", "fault.type", "fault.arg", "fault.argdel", "fault.argadd", "fault.body", "fault.bodylen", "fault.grease_insert", "fault.stanza_delete", "fault.stanza_dup", "fault.permute", "fault.mac_random", "fault.mac_otherkey", "fault.eol_cr", "fault.eol_crlf_all", "fault.eol_space", "fault.eol_blank", "fault.eol_join", "fault.sep_tab", "fault.sep_double"},
+		FaultKinds:  []string{"fault.flip", "fault.insert", "fault.delete", "fault.subst", "fault.wdrop", "fault.wdup", "fault.wswap", "fault.type", "fault.arg", "fault.argdel", "fault.argadd", "fault.body", "fault.bodylen", "fault.grease_insert", "fault.stanza_delete", "fault.stanza_dup", "fault.permute", "fault.mac_random", "fault.mac_otherkey", "fault.eol_cr", "fault.eol_crlf_all", "fault.eol_space", "fault.eol_blank", "fault.eol_join", "fault.sep_tab", "fault.sep_double", "fault.ins_str"},
 		Probes:      []string{"probe.edit_in_other_recipients_stanza", "probe.still_parseable", "probe.unparseable", "probe.trivial_same_image", "probe.rejected_bad_mac", "probe.rejected_no_match", "probe.bufio_reuse_path", "probe.bufio_rewrap_path", "probe.fault_landed_in_payload", "probe.identity_list_alone", "probe.identity_list_first-of-two", "probe.identity_list_last-of-two"},
 	}
 }
@@ -77,7 +77,7 @@ func (C03) Generate(r *core.RNG, tier string, idx uint64) interface{} {
 	e := &HeaderEdit{}
 	kinds := []string{"insert", "delete", "subst", "wdrop", "wdup", "wswap", "type", "arg", "argdel", "argadd", "body", "bodylen",
 		"grease_insert", "stanza_delete", "stanza_dup", "permute", "mac_random", "mac_otherkey", "flip",
-		"eol_cr", "eol_crlf_all", "eol_space", "eol_blank", "eol_join", "sep_tab", "sep_double"}
+		"eol_cr", "eol_crlf_all", "eol_space", "eol_blank", "eol_join", "sep_tab", "sep_double", "ins_str", "ins_str"}
 	e.Kind = kinds[r.Intn(len(kinds))]
 	e.Off = r.Intn(2000)
 	e.Bit = r.Intn(8)
@@ -85,6 +85,9 @@ func (C03) Generate(r *core.RNG, tier string, idx uint64) interface{} {
 	e.I = r.Intn(40)
 	e.J = r.Intn(40)
 	e.N = r.Range(1, 6)
+	if e.Kind == "ins_str" {
+		e.N = r.Intn(64)
+	}
 	if e.Kind == "permute" {
 		n := 5
 		for i := 0; i < n; i++ {
@@ -99,6 +102,9 @@ func (C03) Generate(r *core.RNG, tier string, idx uint64) interface{} {
 	p.Edit = e
 	return p
 }
+
+// insDict: short byte strings a transport or an editor may add to a text header
+var insDict = []string{" x", " AAAA", " a b c", "\n", "\n\n", " ", "=", "==", "-> x\n", "--- ", "\t", " \n", "\r\n", "# c\n", " 0"}
 
 func (C03) Shrinks(plan interface{}) []interface{} {
 	p := plan.(*C03Plan)
@@ -155,6 +161,20 @@ func applyHeaderEdit(e *HeaderEdit, F []byte, l *lib.Layout, disk *seam.SimDisk,
 		h := append([]byte(nil), hdr...)
 		h[e.Off%hl] = byte(e.Byte)
 		return join(h), true
+	case "ins_str":
+		// a few bytes inserted at the end or the start of a line (extra tokens, extra lines)
+		var nl []int
+		for i, b := range hdr {
+			if b == '\n' {
+				nl = append(nl, i)
+			}
+		}
+		at := nl[e.I%len(nl)] // before the line end
+		if e.J%3 == 0 {
+			at++ // at the start of the next line
+		}
+		tok := insDict[e.N%len(insDict)]
+		return join(append(append(append([]byte(nil), hdr[:at]...), tok...), hdr[at:]...)), true
 	case "eol_cr", "eol_crlf_all", "eol_space", "eol_blank", "eol_join", "sep_tab", "sep_double":
 		// line-ending and separator translation, the classic transport damage of text headers
 		var nl, sp []int
@@ -441,6 +461,15 @@ func (e C03) Execute(plan interface{}, c *core.Ctx) *core.Verdict {
 		}
 		if v := check(&HeaderEdit{Kind: "eol_crlf_all"}); v != nil {
 			return v
+		}
+		for i := 0; i < 40; i++ {
+			for n := range insDict {
+				for j := 0; j < 2; j++ {
+					if v := check(&HeaderEdit{Kind: "ins_str", I: i, J: j, N: n}); v != nil {
+						return v
+					}
+				}
+			}
 		}
 		for off := 0; off < l.HeaderLen; off++ {
 			for bit := 0; bit < 8; bit++ {
